@@ -8,6 +8,8 @@ import (
 	"encoding/json"
 	"fmt"
 	"runtime/debug"
+	"strings"
+	"sync/atomic"
 
 	h "verif/internal/harness"
 	"verif/internal/refmodel"
@@ -40,9 +42,20 @@ func (c *Ctx) Mine(in []byte) bool {
 
 // Mark notes the case about to run in the last-case file.
 func (c *Ctx) Mark(meta string, in []byte) {
-	c.seq++
-	c.LC.Set(c.seq, meta, in)
+	seq := atomic.AddUint64(&c.seq, 1)
+	if c.LC == nil {
+		return
+	}
+	if len(meta) < 160 {
+		meta += padding[:160-len(meta)]
+	}
+	c.LC.Set(seq, meta, in)
 }
+
+// Seq is the number of cases started so far (read by the stall watchdog).
+func (c *Ctx) Seq() uint64 { return atomic.LoadUint64(&c.seq) }
+
+var padding = strings.Repeat(" ", 160)
 
 // Guarded runs f and converts a panic into a violation attributed to the property under
 // test (a panic in the code under test always breaks C10, and whatever property we were
@@ -55,7 +68,11 @@ func (c *Ctx) Guarded(cs *h.Case, entry string, f func()) (panicked bool) {
 			if len(st) > 3000 {
 				st = st[:3000]
 			}
-			v := h.Violation{Property: c.Prop, Oracle: "panic", Entry: entry, Observed: fmt.Sprint(r), Crash: st, Seed: c.Seed, Tier: c.Tier}
+			oracle := "panic"
+			if msg := fmt.Sprint(r); strings.Contains(msg, "fault address") || strings.Contains(msg, "unexpected fault") {
+				oracle = "write into (or wild access near) a read-only input page"
+			}
+			v := h.Violation{Property: c.Prop, Oracle: oracle, Entry: entry, Observed: fmt.Sprint(r), Crash: st, Seed: c.Seed, Tier: c.Tier}
 			if cs != nil {
 				v.Family = cs.Family
 				v.Desc = cs.Describe()
